@@ -74,6 +74,9 @@ class Run:
             open(os.path.join(src, "go.mod"), "w").write(gm)
         shutil.copy(os.path.join(self.repo, "go.sum"), os.path.join(src, "go.sum"))
         cmd = ["go", "build"] + (["-race"] if race else []) + ["-o", out, "./cmd/vh"]
+        if os.environ.get("VERIF_COVER"):
+            # development aid (bin/covreport): statement coverage of the library under the drivers; the binary writes to $GOCOVERDIR
+            cmd[2:2] = ["-cover", "-coverpkg=all"]
         rc, o = sh(cmd, cwd=src, env=GOENV, timeout=600)
         if rc != 0:
             raise Infra("harness does not build against /repo: " + o[-2000:])
